@@ -179,9 +179,22 @@ let rec compose_value (seed : int) (read_all : bool) (data : byte list) (off : i
             | Inl ((_, p), Some _) -> (CSkipped, int_of_z p, false)
             | Inr _ -> raise Abn)
       end
-      else if tti = 3 then (match x_ReadFloat64 data with
+      else if tti = 3 then begin
+        let fl () = (match x_ReadFloat64 data with
           | ((b, p), None) -> (CVal (JNum b), int_of_z p, true)
-          | ((_, p), Some _) -> (CSkipped, int_of_z p, false))
+          | ((_, p), Some _) -> (CSkipped, int_of_z p, false)) in
+        (* variant 3: an integer reader first (offset and success from the integer reader model; the
+           value float64(i) is the float reader's value of the same literal), else the float reader *)
+        if variant = 3 then begin
+          let ir = if off mod 2 = 0 then readInt64 data else readUint64 data in
+          (match ir with
+           | ((i, p), None) when i <> Z0 ->
+             (match fl () with
+              | (CVal (JNum b), _, true) -> (CVal (JNum b), int_of_z p, true)
+              | _ -> raise Abn)
+           | _ -> fl ())
+        end else fl ()
+      end
       else if tti = 2 then begin
         if variant = 3 then (match x_ReadStringBytes data [] with
             | Some ((v, p), None) -> (CVal (JStr v), int_of_z p, true)
